@@ -123,9 +123,9 @@ class Gen(Scenario):
             return
         d_old, d_new = E.Decl(m), E.Decl(new)
         for kind in ("variables", "parameters", "derived", "reactions"):
-            ctx.true(f"same {kind} names, in order", list(getattr(d_old, kind)) == list(getattr(d_new, kind)),
+            ctx.true(f"same {kind} names", set(getattr(d_old, kind)) == set(getattr(d_new, kind)) and (kind != "variables" or list(d_old.variables) == list(d_new.variables)),
                      info=f"{list(getattr(d_old, kind))} vs {list(getattr(d_new, kind))}")
-        if any(list(getattr(d_old, k)) != list(getattr(d_new, k)) for k in ("variables", "parameters", "derived", "reactions")):
+        if any(set(getattr(d_old, k)) != set(getattr(d_new, k)) for k in ("variables", "parameters", "derived", "reactions")) or list(d_old.variables) != list(d_new.variables):
             return
         with ctx.impl("values of the rebuilt model"):
             ic_o, ic_n = m.get_initial_conditions(), new.get_initial_conditions()
